@@ -39,8 +39,63 @@ let print_entries b (es : entry list) =
   List.iter (fun e -> Buffer.add_string b (" " ^ tok_of_n e.e_rep ^ " " ^ tok_of_n e.e_def);
               match e.e_val with Some v -> print_value b v | None -> Buffer.add_string b " -") es
 
+let opt_z (o : z option) = match o with Some x -> tok_of_z x | None -> "-"
+let join_path (p : n list list) : n list =
+  let dot = n_of_int 46 in
+  let rec go l = match l with [] -> [] | [x] -> x | x :: r -> x @ (dot :: go r) in go p
+let fmt_header (ph : page_header) : string =
+  tok_of_z ph.ph_type ^ ":" ^ tok_of_z ph.ph_uncompressed_size ^ ":" ^ tok_of_z ph.ph_compressed_size ^ ":" ^
+  (match ph.ph_data with Some d -> tok_of_z d.dph_num_values | None -> "-")
+let fmt_meta (b : Buffer.t) (fm : file_meta) : unit =
+  Buffer.add_string b ("META version=" ^ tok_of_z fm.fm_version ^ " rows=" ^ tok_of_z fm.fm_num_rows ^ " schema=" ^ string_of_int (List.length fm.fm_schema));
+  List.iter (fun se -> Buffer.add_string b (" se:" ^ hex_of_bytes se.se_name ^ ":" ^ opt_z se.se_type ^ ":" ^ opt_z se.se_repetition ^ ":" ^ opt_z se.se_num_children)) fm.fm_schema;
+  List.iter (fun rg ->
+      Buffer.add_string b (" rg:" ^ tok_of_z rg.rg_num_rows ^ ":" ^ tok_of_z rg.rg_total_byte_size ^ ":" ^ string_of_int (List.length rg.rg_columns));
+      List.iter (fun cc -> match cc.cc_meta with
+          | Some m -> Buffer.add_string b (" cc:" ^ hex_of_bytes (join_path m.cm_path) ^ ":" ^ tok_of_z cc.cc_file_offset ^ ":" ^ tok_of_z m.cm_data_page_offset ^ ":" ^
+                                           tok_of_z m.cm_num_values ^ ":" ^ tok_of_z m.cm_total_compressed ^ ":" ^ tok_of_z m.cm_total_uncompressed ^ ":" ^
+                                           tok_of_z m.cm_codec ^ ":" ^ tok_of_z m.cm_type)
+          | None -> Buffer.add_string b " cc:NOMETA") rg.rg_columns) fm.fm_row_groups
+
 let dispatch kind (tk : toks) : string =
   match kind with
+  | "introspect" ->
+    (* the model of ReadMetaData / PageHeaders / PageHeadersAtOffset *)
+    let file = tbytes tk in
+    let fuel = nat_of_int (List.length file + 1) in
+    (match read_metadata (mk_src file [] None) with
+     | Ok (fm, _) ->
+       let b = Buffer.create 4096 in
+       fmt_meta b fm;
+       (match page_headers fuel fm (mk_src file [] None) with
+        | Ok (hs, _) -> Buffer.add_string b (" HEADERS " ^ string_of_int (List.length hs)); List.iter (fun h -> Buffer.add_string b (" " ^ fmt_header h)) hs
+        | Err -> Buffer.add_string b " HEADERS-ERR"
+        | Panic -> Buffer.add_string b " HEADERS-PANIC");
+       Buffer.add_string b " ATOFFSET";
+       List.iter (fun rg -> List.iter (fun cc -> match cc.cc_meta with
+           | Some m -> (match page_headers_at_offset fuel m.cm_data_page_offset m.cm_num_values (mk_src file [] None) with
+               | Ok (hs, _) -> Buffer.add_string b (" n" ^ string_of_int (List.length hs)); List.iter (fun h -> Buffer.add_string b (" " ^ fmt_header h)) hs
+               | _ -> Buffer.add_string b " ERR")
+           | None -> Buffer.add_string b " ERR") rg.rg_columns) fm.fm_row_groups;
+       Buffer.contents b
+     | Err -> "METAERR"
+     | Panic -> "PANIC")
+  | "introspect-view" ->
+    (* the same report, from the independent validator's walk of the file *)
+    let file = tbytes tk in
+    (match check_file decompress file with
+     | Inl e -> "INVALID " ^ verr_name e
+     | Inr v ->
+       let b = Buffer.create 4096 in
+       fmt_meta b v.fv_meta;
+       let chunks = List.concat_map (fun rg -> rg.rv_chunks) v.fv_rgs in
+       let pages = List.concat_map (fun cv -> cv.cv_pages) chunks in
+       Buffer.add_string b (" HEADERS " ^ string_of_int (List.length pages));
+       List.iter (fun pv -> Buffer.add_string b (" " ^ fmt_header pv.pv_header)) pages;
+       Buffer.add_string b " ATOFFSET";
+       List.iter (fun cv -> Buffer.add_string b (" n" ^ string_of_int (List.length cv.cv_pages));
+                   List.iter (fun pv -> Buffer.add_string b (" " ^ fmt_header pv.pv_header)) cv.cv_pages) chunks;
+       Buffer.contents b)
   | "rleenc" -> let w = tn tk in let ls = tnlist tk in hex_of_bytes (rle_encode w ls)
   | "rledec" -> let w = tn tk in let bs = tbytes tk in
     (match rle_read w bs with
